@@ -59,6 +59,13 @@ MSGS = {
     'RR_short': (frame(5, b'\x00\x01\x00'), dict(kind='SHORT')),
     'RR_orf': (frame(5, b'\x00\x01\x00\x01' + b'\x01\x40\x00\x01\x00'), dict(kind='RR')),
 }
+# UPDATEs whose Withdrawn Routes Length / Total Path Attribute Length point at, just before and just beyond the end of the body
+LENGTH_EDGE = []
+_b = UPD_ROUTE[19:]
+for _k in range(0, 6):
+    MSGS['UPD_wdlen_end-%d' % _k] = (frame(2, struct.pack('!H', len(_b) - _k) + _b[2:]), dict(kind='UPD'))
+    MSGS['UPD_atlen_end-%d' % _k] = (frame(2, _b[:2] + struct.pack('!H', len(_b) - 4 + 2 - _k) + _b[4:]), dict(kind='UPD'))
+    LENGTH_EDGE += ['UPD_wdlen_end-%d' % _k, 'UPD_atlen_end-%d' % _k]
 ODD_LENGTH = ['OPEN_short', 'UPD_short', 'NOTI_short', 'KA_long', 'RR_short', 'RR_orf']
 ALPHABET_C01 = ['OPEN', 'OPEN_h0', 'OPEN_h1', 'OPEN_h2', 'OPEN_h9', 'OPEN_badver', 'OPEN_badas', 'OPEN_badcap',
                 'KA', 'UPD', 'UPD1', 'UPD_unkfam', 'UPD_malformed', 'UPD_wdoverrun', 'NOTI_VER', 'NOTI_CEASE', 'NOTI_HDR', 'NOTI_UPD', 'NOTI_HOLD', 'NOTI_FSM', 'NOTI_RR', 'NOTI_UNK', 'RR', 'BADMARK', 'BADLEN', 'BADLEN0',
